@@ -7,11 +7,12 @@
      Inv04 w                 IndexExact + duplicate-free keys for every model (+ typing side invariants)
    Hypotheses: TablesOK (facts about the specification tables; C04_tables_real: true of the generated tables),
    TreeFacts w (= C03's TreeInv, see Tree/IndexProofsBridge.v).  Known04 = finding classes (witnesses below).
-   Constructors covered for Inv04 alone (C04_inv_partial): all except OpCopy OpCopyAt OpMove OpMoveAt OpSetItemName and
-   OpRemoveFile of the LAST file of a model (Pending04).  Together with Inv05 (C04_history, Properties/C05.v C45_inv):
-   additionally OpSetItemName and OpMove / OpMoveAt inside one model with an identifiable moved element (Pending45m).
+   Constructors covered for Inv04 alone (C04_inv_partial): all except OpCopy OpCopyAt OpMove OpMoveAt OpSetItemName
+   (Pending04).  Together with Inv05: C04_history (Pending45m: + OpSetItemName, moves of an identifiable element inside
+   one model), C04_history_x (Pending45x: + OpCopy OpCopyAt and moves of a container inside one model); what remains
+   pending is OpMove / OpMoveAt between two models.
    [P] C04_inv_partial, C04_history_partial, C04_reachable_partial, C04_set_item_name (one operation, given Inv05),
-       C04_history (closed: from the empty world, refined pending list), C04_history_real [F]
+       C04_history, C04_history_x (closed: from the empty world, refined pending lists), C04_history_real, C04_history_x_real [F]
    [F] C04_tables_real
    [U] C04_lookup, C04_enumeration,
    C04_unique_paths, C04_path_concat, C04_rekey (the prefix re-keying loop of fix_identifiables). *)
@@ -89,6 +90,27 @@ Theorem C04_history_real :
   TreeFacts w' /\ Inv04 RT (check_fn_model dfas) w' /\ Inv05 RT w'.
 Proof. exact C04_C05_history_rt. Qed.
 
+(* second refinement (Pending45x): create_copied_sub_element[_at] (outside the classes of Known05: a copy whose result is
+   not `copy_clean`, a failed copy that left garbage) and every move inside one model (containers outside the class
+   K04-move-container) are covered; pending: moves between two models *)
+Theorem C04_history_x :
+  forall (T : tables) (tab_el tab_en : nametab) (check_fn : N -> list N -> res bool) (LATEST : N)
+         (root_attrs : list (N * cdata)),
+  TablesOK T check_fn ->
+  forall (l : list op) (w' : world),
+  clean45x T tab_el tab_en check_fn LATEST root_attrs l empty_world = true ->
+  run_ops T tab_el tab_en check_fn LATEST root_attrs l empty_world = Val w' ->
+  TreeFacts w' /\ Inv04 T check_fn w' /\ Inv05 T w'.
+Proof. exact C04_C05_history_x. Qed.
+
+Theorem C04_history_x_real :
+  forall (dfas : N -> option (list (list N) * list N)) (tab_el tab_en : nametab) (LATEST : N) (root_attrs : list (N * cdata))
+         (l : list op) (w' : world),
+  clean45x RT tab_el tab_en (check_fn_model dfas) LATEST root_attrs l empty_world = true ->
+  run_ops RT tab_el tab_en (check_fn_model dfas) LATEST root_attrs l empty_world = Val w' ->
+  TreeFacts w' /\ Inv04 RT (check_fn_model dfas) w' /\ Inv05 RT w'.
+Proof. exact C04_C05_history_x_rt. Qed.
+
 Theorem C04_lookup :
   forall (T : tables) (check_fn : N -> list N -> res bool) (w : world) (m : N) (p : list N) (r : out (option id)) (w' : world),
   Inv04 T check_fn w -> q_get_by_path m p w = Val (r, w') ->
@@ -153,6 +175,21 @@ Example C04_move_demo :
   origins_list (wof move_demo2) 0 = [(BS "/B", [7]); (BS "/B/S", [13])].
 Proof. exact (conj move_demo2_inv move_demo2_content). Qed.
 
+(* remove_file of the last file: every sub-element of the root is removed, both maps are empty *)
+Example C04_lastfile_demo :
+  (TreeFacts (wof lastfile_demo) /\ Inv04 tiny tiny_check_fn (wof lastfile_demo) /\ Inv05 tiny (wof lastfile_demo)) /\
+  idents_of (wof lastfile_demo) 0 = [] /\ origins_list (wof lastfile_demo) 0 = [] /\
+  option_map n_content (w_nodes (wof lastfile_demo) 0) = Some [].
+Proof. exact lastfile_demo_summary. Qed.
+
+(* copies (an element next to itself: S_1; a whole package: /A_1 with its contents) and a container move *)
+Example C04_copy_demo :
+  (TreeFacts (wof copy_demo) /\ Inv04 tiny tiny_check_fn (wof copy_demo) /\ Inv05 tiny (wof copy_demo)) /\
+  idents_of (wof copy_demo) 0 =
+    [(BS "/A", 2); (BS "/A_1/S_1", 19); (BS "/B", 8); (BS "/B/S", 5); (BS "/A_1", 13); (BS "/A_1/S", 16); (BS "/B/S_1", 10)] /\
+  NoDup (map fst (origins_list (wof copy_demo) 0)).
+Proof. exact copy_demo_summary. Qed.
+
 (* ---------- findings: the invariant really breaks on the classes excluded by Known04 *)
 Example C04_front_refuted :
   (TreeFacts (wof front_pre) /\ Inv04 tiny tiny_check_fn (wof front_pre)) /\
@@ -180,3 +217,12 @@ Example C04_copy_container_refuted :
   (exists i w', Tiny.run cc_op (wof cc_pre) = Val (OK (VElem i), w')) /\
   ~ Inv04 tiny tiny_check_fn (wof (cc_pre ++ [cc_op])).
 Proof. exact K04_copy_container_refuted. Qed.
+
+(* the container move without uniqueness check (finding C04-move-container-duplicates-paths; the class is part of Known05,
+   which is evaluated by running the model) *)
+Example C04_move_container_refuted :
+  (TreeFacts (wof mc_pre) /\ Inv04 tiny tiny_check_fn (wof mc_pre) /\ Inv05 tiny (wof mc_pre)) /\
+  Known05 tiny tiny_el tiny_en tiny_check_fn LATEST [] (wof mc_pre) mc_op = true /\
+  (exists w', Tiny.run mc_op (wof mc_pre) = Val (OK (VElem 4), w')) /\
+  ~ Inv04 tiny tiny_check_fn (wof (mc_pre ++ [mc_op])).
+Proof. exact K04_move_container_refuted. Qed.
